@@ -603,15 +603,25 @@ def run_cases(cases, ctx):
                     worst = (code, k)
             if worst is not None:
                 code, k = worst
-                sig = signature_of(code, c, o, k)
-                mc = c
-                try:
-                    mc = minimize_prog(ctx, c, k, sig)
-                except Exception:  # noqa
-                    pass
-                mo = run_impl(mc) if mc is not c else o
-                violations.append({'case': mc, 'summary': describe(mc, mo), 'signature': sig, 'what': what_of(code, c, o, k),
+                violations.append({'case': c, 'summary': describe(c, o), 'signature': signature_of(code, c, o, k),
+                                   'what': what_of(code, c, o, k), '_k': k,
                                    'observed': ['verdict %d: %s' % (code, ', '.join(clause_names(code)))]})
+    # minimise the smallest witness of each signature (at most 4 signatures, 12 s each)
+    if violations and ctx.get('monitor_exe') and ctx.get('tier') != 'replay':
+        best = {}
+        for v in violations:
+            sz = len(v['case']['srcs'][0])
+            if v['signature'] not in best or sz < best[v['signature']][0]:
+                best[v['signature']] = (sz, v)
+        for sig, (_, v) in sorted(best.items())[:4]:
+            try:
+                mc = minimize_prog(ctx, v['case'], v['_k'], sig, budget_s=12)
+                v['case'] = mc
+                v['summary'] = describe(mc, run_impl(mc))
+            except Exception:  # noqa
+                pass
+    for v in violations:
+        v.pop('_k', None)
     samples = [describe(c, o) for c, o in list(zip(cases, obs))[:: max(1, len(cases) // 5)]][:6]
     return {'evaluations': evaluations, 'nontrivial': len(nontrivial), 'rule': RULE, 'samples': samples,
             'disagreements': disagreements, 'violations': violations, 'histogram': hist,
